@@ -5,7 +5,9 @@ modes
                                              is decoded to a Term with missing types = None, the context is set with
                                              logic.context.Context(vars=..., svars=...), type_infer is called
   random <n> <out.ndjson> <seed>             seeded larger inputs: random well-typed terms (deeper, more binders) erased
-                                             with random per-occurrence masks, and long random constraint conjunctions
+                                             with random per-occurrence masks (every 7th with some free variables turned
+                                             into constants under definition, context.ctxt.defs), and long random
+                                             constraint conjunctions
   corpus <out.ndjson> <limit> <seed>         statements of the theorems of the loaded library theory, erased with the
                                              four patterns, variables declared
 Event: {tid, key, fam, keep, declared, skel, ctx, sig, orig, outcome, cls, err, result}
